@@ -22,6 +22,10 @@ THEOREMS_1 = ["C02_ext_ref_accept", "C02_ext_ref_reject", "C02_model_ref_accept"
               "C02_aasd130", "C02_string_types", "C02_version_type", "C02_revision_type", "C02_lang_string_texts",
               "C02_string_errors", "C02_id_short", "C02_id_short_errors", "C02_string_example", "C02_int_ranges"]
 THEOREMS_2 = ["C02_list_ctor", "C02_list_accept_wf", "C02_list_reject_unchanged", "C02_list_history", "C02_list_example"]
+THEOREMS_3 = ["C02_adm_ctor", "C02_adm_accept_wf", "C02_adm_reject_unchanged", "C02_adm_history", "C02_adm_example",
+              "C02_bee_ctor", "C02_bee_accept_wf", "C02_bee_reject_unchanged", "C02_bee_history", "C02_bee_example",
+              "C02_category_accept_wf", "C02_category_reject", "C02_category_text_refuted", "C02_category_text_partial",
+              "C02_lss_ctor", "C02_lss_step", "C02_lss_history", "C02_lss_example"]
 
 
 def enc_exc(e):
@@ -610,7 +614,7 @@ def run(chk):
     with common.CoqLock():
         infos = regenerate(chk)
     vo = ["theories/props/C02.vo", "theories/model/ConstraintsObs.vo"]
-    built = chk.theorems("props.C02", THEOREMS_1 + THEOREMS_2, vo)
+    built = chk.theorems("props.C02", THEOREMS_1 + THEOREMS_2 + THEOREMS_3, vo)
     chk.cov["translators"] = {k: ("ok" if v else "ABORTED") for k, v in infos.items()}
     can_eval = built or not any(b.get("kind") == "proof" and "module" in b for b in chk.broken)
     if not can_eval:
@@ -631,6 +635,8 @@ def run(chk):
                                                                          if k.startswith("lss_check_")}})
         import c02_lists
         c02_lists.frag_lists(chk, can_eval)
+        import c02_small
+        c02_small.run_all(chk, can_eval)
     finally:
         if not can_eval:
             common.run_mismatch_shards = common_run
@@ -647,7 +653,11 @@ def run(chk):
     ]
     chk.assumptions = ["CPython int/str/list semantics as modelled (list Z for str, Z for int)"]
     return chk.finish(level="proof",
-                      rule="references: all key-type sequences up to length 3 (quick) / 4 (thorough) plus seeded chains up to "
+                      rule="state machines (ConstrainedList with Entity/AssetInformation/HasSemantics hooks, AdministrativeInformation, "
+                           "BasicEventElement, language string sets): every operation sequence up to a small length over a fixed "
+                           "alphabet from every constructor argument combination, plus seeded longer sequences with list and "
+                           "one-shot-iterator arguments; typed values: 31 XSD types x 38 Python values through 4 holder classes incl. "
+                           "assignment to value_type; references: all key-type sequences up to length 3 (quick) / 4 (thorough) plus seeded chains up to "
                            "length 8 with nasty key values; integers: range edges +-1, powers of two, seeded values for all 13 "
                            "types; strings: lengths min-1..max+1 and every AASd-130 range edge +-1 at start/middle/end for every "
                            "constrained type and attribute; non-trivial = at least two keys / non-empty string; distinct by input")
@@ -662,6 +672,9 @@ def replay(path):
     if k == "list":
         import c02_lists
         return c02_lists.replay_case(rp)
+    if k in ("adm", "bee", "lss"):
+        import c02_small
+        return c02_small.replay_case(rp)
     if k == "ref":
         types = [model.KeyTypes[t] for t in rp["types"]]
         ks = tuple(model.Key(t, v) for t, v in zip(types, rp["values"]))
